@@ -79,6 +79,18 @@ def check(run, project):
     # L12: `convert a b` / `type a b` decode the bytes of ALL files given, in order
     from .shared import reads_every_file
     reads_every_file(run, project, "L12", what="convert / type answer for the first file only and still exit 0")
+    # L16 (= C10-T12): convert / type read standard input (a text-mode file) through its byte buffer
+    from .shared import text_sources_unwrapped
+    try:
+        text_sources_unwrapped(run, project, "L16", "convert / type fail on standard input")
+    except AnalysisError as ex:
+        run.info(f"L16: the file reader's mode test could not be evaluated ({ex}); not judged here (C10 reports it)")
+    # L15 (= C15-F5): what convert decodes from a capture is every message in it: the pcapng cutter drops nothing but runts
+    # below the header size
+    try:
+        c15.f5(RuleView(run, "F5", "L15"), project, ctx.layout(project))
+    except AnalysisError as ex:
+        run.info(f"L15: the front-ends' message cutting could not be followed ({ex}); not judged here (C15 reports it)")
     from . import c11
     try:
         c11.check(RuleView(run, "A1", "L11"), project)
@@ -625,7 +637,16 @@ def l7(run, mod, fns, project):
                    node=p.node or ini, func="Canonical.__init__", construct="Canonical eager decode")
         if p.truth("isinstance(input, bytes)") is True:
             inner = src.args[0] if isinstance(src, ast.Call) and call_name(src) == "Generator" and src.args else src
-            kws = {k.arg: norm(k.value) for k in inner.keywords} if isinstance(inner, ast.Call) else {}
+            kws = {}
+            for k in (inner.keywords if isinstance(inner, ast.Call) else []):
+                if k.arg is not None:
+                    kws[k.arg] = norm(k.value)
+                elif isinstance(k.value, ast.Call) and call_name(k.value) == "dict" and not k.value.args and all(x.arg for x in k.value.keywords):
+                    kws.update({x.arg: norm(x.value) for x in k.value.keywords})      # **dict(a=b, ...)
+                elif isinstance(k.value, ast.Dict) and all(isinstance(x, ast.Constant) and isinstance(x.value, str) for x in k.value.keys):
+                    kws.update({x.value: norm(v_) for x, v_ in zip(k.value.keys, k.value.values)})   # **{"a": b, ...}
+                else:
+                    kws[None] = norm(k.value)
             want = {"tpm_type": "tpm_type", "buffer": "input", "root_path": "path", "command_code": "command_code", "abort_on_error": "abort_on_error"}
             n += 1
             run.ob("L7", isinstance(inner, ast.Call) and norm(inner.func) == "format_in.marshal" and kws == want and not inner.args,
